@@ -1,4 +1,5 @@
 import TemplVerif.Drive.Common
+import TemplVerif.Spec.HtmlTok
 import TemplVerif.Model.Url
 namespace TemplVerif.Drive.C04
 open TemplVerif TemplVerif.Drive
@@ -25,6 +26,8 @@ def handle : List String → Verdict
   | ["typing", shapeH, exprH, _srcH, codeH] =>
     match hexField shapeH, hexField exprH, hexField codeH with
     | some shape, some expr, some code =>
+      -- a spelling the parser / generator rejects is outside the quantifier
+      if List.isPrefixOf (Bytes.ofString "GENERATE-ERROR") code then { skipped := true, tags := ["typing-rejected"] } else
       -- " templ.SafeURL = " ++ expr ++ "\n"   and   "WriteString(templ.EscapeString(string("
       let typed := Bytes.countInfix (Bytes.ofString " templ.SafeURL = " ++ expr ++ [10]) code
       let joined := Bytes.countInfix (Bytes.ofString "templ.JoinStringErrs(" ++ expr ++ [41]) code
@@ -36,6 +39,20 @@ def handle : List String → Verdict
           some s!"href/action expression not routed through templ.SafeURL: typed={typed} (want {expected}) viaJoinStringErrs={joined} escapedWrites={written}",
         nontrivial := true, tags := ["typing:" ++ shapeS], sig := s!"typing;{shapeS}" }
     | _, _, _ => .badOp
+  | ["spread", el, vH, docH] =>
+    match hexField vH, hexField docH with
+    | some v, some doc =>
+      -- the browser's view of the href / action attribute of the rendered element
+      let want := if el == "a" then Bytes.ofString "href" else Bytes.ofString "action"
+      let got : Option Bytes := match HtmlTok.tokenize doc with
+        | .startTag _ attrs _ :: _ => (attrs.find? fun a => a.1 == want).map (·.2)
+        | _ => none
+      { predfail := match got with
+          | none => some "spread attribute did not produce the element / attribute"
+          | some u => if Whatwg.okPair v u then none else
+              some s!"{el} received the dynamic URL {Bytes.toHex u} through spread attributes: it is neither relative nor allow-listed and was not replaced",
+        nontrivial := (Whatwg.scheme v).isSome, tags := ["spread:" ++ el], sig := "spread;" ++ el }
+    | _, _ => .badOp
   | _ => .badOp
 
 end TemplVerif.Drive.C04
